@@ -1422,6 +1422,13 @@ func c18Strace(dir string, logPath string, inject string, spec string) (died boo
 	return false, nil
 }
 
+// c18InjectionMissed: the strace child died of something the injection did to the Go runtime or the loader, not to the save.
+func c18InjectionMissed(err error) bool {
+	m := err.Error()
+	return strings.Contains(m, "fatal error: runtime:") || strings.Contains(m, "netpollBreak") || strings.Contains(m, "cannot close file descriptor") ||
+		strings.Contains(m, "error while loading shared libraries")
+}
+
 var reC18Sys = regexp.MustCompile(`^(\d+) +(\w+)\(`)
 
 type c18SysCall struct {
@@ -1547,6 +1554,19 @@ func c18RunSys(g *c18Gen, v c18Variant, r *c18Refs, dir string, load c18LoadFn, 
 			}
 			inj = calls[j-1].Name + ":" + inj
 			died, err := c18Strace(d, filepath.Join(dir, "inj.log"), inj, string(spec))
+			// strace counts a call per thread: when the Go scheduler has moved things, the N-th write / close is one of the
+			// runtime's own (its wake-up pipe) or of the dynamic loader, and the child dies of a runtime fatal error that has
+			// nothing to do with the save. Try again (fresh directory); an injection that never reaches the save is skipped.
+			for try := 0; err != nil && c18InjectionMissed(err) && try < 3; try++ {
+				if d, err = fresh(fmt.Sprintf("%s%d-retry%d", kind, j, try)); err != nil {
+					return nil, err
+				}
+				died, err = c18Strace(d, filepath.Join(dir, "inj.log"), inj, string(spec))
+			}
+			if err != nil && c18InjectionMissed(err) {
+				out = append(out, c18SysRes{J: j, Kind: kind, Call: callName(j) + " (injection hit another thread's call: skipped)"})
+				continue
+			}
 			if err != nil {
 				return nil, err
 			}
